@@ -352,3 +352,13 @@ Proof. intros A d miss w reqs Hwf Hid Hd. apply multi_part_round_trip; assumptio
 Lemma compute_gets_top : forall (A : Type) (d : A) (miss : option A) (w : world A) (reqs : list greq),
   compute_gets d miss w reqs = map (get_one d miss w) reqs.
 Proof. intros. apply compute_gets_spec. Qed.
+
+(* put_dask_array's block -> object mapping: afterwards every dask block is held under the key printed from its
+   location (shifted by the offset), with the block's own shape and elements *)
+Lemma put_stores_top : forall (A : Type) (st : store A) (arr : str) (dt : Z) (f : list Z -> A)
+    (chunks : list (list Z)) (off : list Z) b,
+  Forall (fun cs => Forall (fun c => 0 < c) cs \/ cs = [0]) chunks ->
+  (off = [] \/ List.length off = List.length chunks) ->
+  In b (blocks chunks) ->
+  lookup (block_key arr off b) (fst (put_array st arr dt f chunks off)) = Some (OChunk dt (slice_shape b) (extract f b)).
+Proof. intros A st arr dt f chunks off b Hwf Hoff Hb. apply (put_stores st arr dt f chunks off); [split; assumption | exact Hb]. Qed.
